@@ -42,24 +42,28 @@ Section Final.
     Variable gt_min : GT -> nat.
     Variable gt_dmi : GT -> option A -> GT.
     Variable grep : bool -> GT -> list (option A) -> Prop.
-    Hypothesis Gok : gtree_ok ltb gt_init gt_min gt_dmi grep.
+    Variable gsize : nat -> Prop.
+    Hypothesis Gok : gtree_ok ltb gsize gt_init gt_min gt_dmi grep.
     Variable UT : Type.
     Variable ut_init : bool -> A -> list A -> UT.
     Variable ut_min : UT -> option nat.
     Variable ut_dmi : UT -> A -> UT.
     Variable urep : bool -> UT -> A -> list A -> Prop.
-    Hypothesis Uok : utree_ok ltb ut_init ut_min ut_dmi urep.
+    Variable usize : nat -> Prop.
+    Variable ukey : A -> A -> Prop.
+    Hypothesis Uok : utree_ok ltb usize ukey ut_init ut_min ut_dmi urep.
 
     Notation base := (mwm_base ltb GT gt_init gt_min gt_dmi UT ut_init ut_min ut_dmi).
 
     (** Every variant performs a merge run of exactly [len] steps (stable run for the stable entry points). *)
     Theorem mwm_run stable sentinels alg (st : state) sents len :
       inputs_ok st -> len <= total st -> (sentinels = true -> sent_ok ltb st sents) ->
+      side_ok gsize usize ukey alg sentinels st sents ->
       exists out st', base stable sentinels alg st sents len = Some (out, st') /\
                       mrun ltb stable st out st' /\ length out = len.
     Proof.
-      intros Hin Hlen Hsent.
-      apply (mwm_base_correct ltb H GT gt_init gt_min gt_dmi grep Gok UT ut_init ut_min ut_dmi urep Uok); auto.
+      intros Hin Hlen Hsent Hside.
+      apply (mwm_base_correct ltb H GT gt_init gt_min gt_dmi grep gsize Gok UT ut_init ut_min ut_dmi urep usize ukey Uok); auto.
       - intros b s n. apply (merge_bubble_correct ltb H).
       - now apply inputs_ok_sorted.
     Qed.
@@ -68,10 +72,11 @@ Section Final.
         left exactly where that merge leaves them; independent of algorithm, sentinels and tree. *)
     Theorem mwm_stable sentinels alg (st : state) sents len :
       inputs_ok st -> len <= total st -> (sentinels = true -> sent_ok ltb st sents) ->
+      side_ok gsize usize ukey alg sentinels st sents ->
       base true sentinels alg st sents len = Some (firstn len (gmerge ltb st), snd (msteps ltb len st)).
     Proof.
-      intros Hin Hlen Hsent.
-      destruct (mwm_run true sentinels alg st sents len Hin Hlen Hsent) as (out & st' & E & R & L).
+      intros Hin Hlen Hsent Hside.
+      destruct (mwm_run true sentinels alg st sents len Hin Hlen Hsent Hside) as (out & st' & E & R & L).
       destruct (mrun_true_msteps ltb H _ _ _ R) as [E1 E2]. rewrite L in E1, E2.
       rewrite E, E1, E2. now rewrite msteps_firstn.
     Qed.
@@ -81,20 +86,34 @@ Section Final.
         every element written is <= every element left (so they are the [len] smallest). *)
     Theorem mwm_any stable sentinels alg (st : state) sents len :
       inputs_ok st -> len <= total st -> (sentinels = true -> sent_ok ltb st sents) ->
+      side_ok gsize usize ukey alg sentinels st sents ->
       exists out st', base stable sentinels alg st sents len = Some (out, st') /\
         length out = len /\
         StronglySorted (sorted_rel ltb) out /\
         (exists ps, length ps = length st /\ interleave ps out /\ forall s, nth s st [] = nth s ps [] ++ nth s st' []) /\
         (forall x l y, In x out -> In l st' -> In y l -> ltb y x = false).
     Proof.
-      intros Hin Hlen Hsent.
-      destruct (mwm_run stable sentinels alg st sents len Hin Hlen Hsent) as (out & st' & E & R & L).
+      intros Hin Hlen Hsent Hside.
+      destruct (mwm_run stable sentinels alg st sents len Hin Hlen Hsent Hside) as (out & st' & E & R & L).
       exists out, st'. split; [exact E|]. split; [exact L|].
       destruct (mrun_sorted ltb H _ _ _ _ (inputs_ok_sorted _ Hin) R) as [So Lo].
       split; [exact So|]. split; [exact (mrun_interleave ltb _ _ _ _ R)|].
       intros x l y Hx Hl Hy. exact (Lo x Hx l y Hl Hy).
     Qed.
   End Trees.
+
+  (** Tree-free statement over the reference tournament (stable for other properties to rely on). *)
+  Theorem ref_mwm_run stable sentinels alg (st : state) sents len :
+    inputs_ok st -> len <= total st -> (sentinels = true -> sent_ok ltb st sents) ->
+    exists out st', mwm_base ltb RGT (@rgt_init A) (rgt_min ltb) (rgt_dmi ltb) RUT (@rut_init A) (rut_min ltb) (rut_dmi ltb)
+                             stable sentinels alg st sents len = Some (out, st') /\
+                    mrun ltb stable st out st' /\ length out = len.
+  Proof.
+    intros Hin Hlen Hsent.
+    apply (mwm_run RGT (@rgt_init A) (rgt_min ltb) (rgt_dmi ltb) (ref_grep) (fun _ => True) (ref_gtree_ok ltb H)
+                   RUT (@rut_init A) (rut_min ltb) (rut_dmi ltb) (ref_urep) (fun _ => True) (fun _ _ => True) (ref_utree_ok ltb H)); auto.
+    apply side_ok_trivial; intros; exact I.
+  Qed.
 
   (** The model as run in the correspondence (reference tournament) is an instance. *)
   Theorem ref_mwm_stable sentinels alg (st : state) sents len :
@@ -104,9 +123,9 @@ Section Final.
           map (fun p => length (fst p) - length (snd p)) (combine st (snd (msteps ltb len st)))).
   Proof.
     intros Hin Hlen Hsent. unfold ref_mwm.
-    rewrite (mwm_stable RGT (@rgt_init A) (rgt_min ltb) (rgt_dmi ltb) (ref_grep) (ref_gtree_ok ltb H)
-                        RUT (@rut_init A) (rut_min ltb) (rut_dmi ltb) (ref_urep) (ref_utree_ok ltb H)
-                        sentinels alg st sents len Hin Hlen Hsent).
+    rewrite (mwm_stable RGT (@rgt_init A) (rgt_min ltb) (rgt_dmi ltb) (ref_grep) (fun _ => True) (ref_gtree_ok ltb H)
+                        RUT (@rut_init A) (rut_min ltb) (rut_dmi ltb) (ref_urep) (fun _ => True) (fun _ _ => True) (ref_utree_ok ltb H)
+                        sentinels alg st sents len Hin Hlen Hsent (side_ok_trivial _ _ _ alg sentinels st sents (fun _ => I) (fun _ => I) (fun _ _ => I))).
     rewrite firstn_length. replace (Nat.min len (length (gmerge ltb st))) with len; [reflexivity|].
     unfold gmerge. destruct (msteps_mrun ltb H (total st) st (le_n _)) as [_ L]. rewrite L. lia.
   Qed.
@@ -153,25 +172,29 @@ Section Tagged.
     Variable gt_min : GT -> nat.
     Variable gt_dmi : GT -> option B -> GT.
     Variable grep : bool -> GT -> list (option B) -> Prop.
-    Hypothesis Gok : gtree_ok (ltb3 ltb) gt_init gt_min gt_dmi grep.
+    Variable gsize : nat -> Prop.
+    Hypothesis Gok : gtree_ok (ltb3 ltb) gsize gt_init gt_min gt_dmi grep.
     Variable UT : Type.
     Variable ut_init : bool -> B -> list B -> UT.
     Variable ut_min : UT -> option nat.
     Variable ut_dmi : UT -> B -> UT.
     Variable urep : bool -> UT -> B -> list B -> Prop.
-    Hypothesis Uok : utree_ok (ltb3 ltb) ut_init ut_min ut_dmi urep.
+    Variable usize : nat -> Prop.
+    Variable ukey : B -> B -> Prop.
+    Hypothesis Uok : utree_ok (ltb3 ltb) usize ukey ut_init ut_min ut_dmi urep.
 
     (** Elements that remember where they came from: the stable entry points write exactly
         [firstn len (smerge inputs)] — equivalent elements ordered by sequence index, then position. *)
     Theorem mwm_stable_positions sentinels alg (ls : list (list A)) tsents len :
       Forall (fun l => sortedb ltb l = true) ls -> len <= total ls ->
       (sentinels = true -> sent_ok (ltb3 ltb) (tag_all ls) tsents) ->
+      side_ok gsize usize ukey alg sentinels (tag_all ls) tsents ->
       mwm_base (ltb3 ltb) GT gt_init gt_min gt_dmi UT ut_init ut_min ut_dmi true sentinels alg (tag_all ls) tsents len =
       Some (firstn len (smerge ltb ls), snd (msteps (ltb3 ltb) len (tag_all ls))).
     Proof.
-      intros Hin Hlen Hsent.
+      intros Hin Hlen Hsent Hside.
       pose proof (inputs_ok_sorted ltb H ls Hin) as Hs. pose proof (tag_all_sorted ls Hs) as Hst.
-      destruct (mwm_base_correct (ltb3 ltb) SWO_ltb3 GT gt_init gt_min gt_dmi grep Gok UT ut_init ut_min ut_dmi urep Uok
+      destruct (mwm_base_correct (ltb3 ltb) SWO_ltb3 GT gt_init gt_min gt_dmi grep gsize Gok UT ut_init ut_min ut_dmi urep usize ukey Uok
                   (fun b s n => merge_bubble_correct (ltb3 ltb) SWO_ltb3 b s n)
                   true sentinels alg (tag_all ls) tsents len Hst) as (out & st' & E & R & L); auto.
       { now rewrite tag_all_total. }
